@@ -311,6 +311,10 @@ def rescale(img, scale, shape=None, mask=None, order=3, mode='nearest',
     """
 
     img = np.asarray(img)
+    if not np.issubdtype(img.dtype, np.inexact):
+        # integer and bool images (e.g. the mask of a rescaled Plane) have no
+        # machine epsilon and cannot hold interpolated values
+        img = img.astype(float)
 
     if mask is None:
         # take the real portion to ensure that even if img is complex, mask will
